@@ -58,8 +58,8 @@ def setupCylindricalGrid(layout: str, constantFile: str = None, **kwargs):
 
     for f in dir(constants):
         val = getattr(constants, f)
-        if not callable(val) and f[0] != '_':
-            setattr(constants, f, kwargs.pop(f, val))
+        if not callable(val) and f[0] != '_' and f in kwargs:
+            setattr(constants, f, kwargs.pop(f))
 
     comm = kwargs.pop('comm', MPI.COMM_WORLD)
     plotThread = kwargs.pop('plotThread', False)
@@ -154,8 +154,8 @@ def setupFromFile(foldername, constantFile: str = None, **kwargs):
 
     for f in dir(constants):
         val = getattr(constants, f)
-        if not callable(val) and f[0] != '_':
-            setattr(constants, f, kwargs.pop(f, val))
+        if not callable(val) and f[0] != '_' and f in kwargs:
+            setattr(constants, f, kwargs.pop(f))
 
     plotThread = kwargs.pop('plotThread', False)
     drawRank = kwargs.pop('drawRank', 0)
